@@ -216,9 +216,69 @@ int main(int argc, char **argv)
       std::istringstream is(text_arg(line));
       cvm::clear_error();
       if (fmt == "multicol") g.read_multicol(is, add); else g.read_raw(is);
-      bool bad = ((!is) && !remap_expected) || (cvm::get_error() != COLVARS_OK);
+      bool bad = (!is) || (cvm::get_error() != COLVARS_OK);
       if (bad) std::cout << "ERR\n"; else print_grid(g);
       cvm::clear_error();
+    } else if (cmd == "GWB") {
+      // unformatted raw form: bytes of the memory_stream in hex
+      gspec sp = read_spec(a, p);
+      colvar_grid<double> g; fill_grid(g, sp);
+      cvm::memory_stream os; g.write_raw(os);
+      std::cout << "X ";
+      for (size_t k = 0; k < os.length(); k++) { char b[4]; snprintf(b, 4, "%02x", (unsigned) os.output_buffer()[k]); std::cout << b; }
+      std::cout << "\n";
+      cvm::clear_error();
+    } else if (cmd == "GRB") {
+      // GRB <spec of the receiving grid> HEX <bytes> : unformatted read_raw
+      gspec sp = read_spec(a, p);
+      colvar_grid<double> g; fill_grid(g, sp);
+      std::string hx = (a.size() > p + 1 && a[p] == "HEX") ? a[p + 1] : std::string();
+      std::vector<unsigned char> buf;
+      for (size_t k = 0; k + 1 < hx.size(); k += 2) buf.push_back((unsigned char) strtol(hx.substr(k, 2).c_str(), NULL, 16));
+      unsigned char dummy = 0;
+      cvm::memory_stream is(buf.size(), buf.size() ? buf.data() : &dummy);
+      cvm::clear_error();
+      g.read_raw(is);
+      bool bad = (!is) || (cvm::get_error() != COLVARS_OK);
+      if (bad) std::cout << "ERR\n"; else print_grid(g);
+      cvm::clear_error();
+    } else if (cmd == "GN") {
+      // gradient grid attached to a sample-count grid: GN <spec> C <n> counts.. : the multicolumn file, then the grid read
+      // back from it by a second gradient grid attached to the same counts
+      gspec sp = read_spec(a, p);
+      std::vector<size_t> cnt;
+      if (a[p] == "C") { p++; int n = ni(); for (int k = 0; k < n; k++) cnt.push_back((size_t) atol(a[p++].c_str())); }
+      std::shared_ptr<colvar_grid_count> samples(new colvar_grid_count());
+      samples->setup(sp.nx, 0, 1);
+      for (size_t k = 0; k < samples->nt && k < cnt.size(); k++) samples->data[k] = cnt[k];
+      colvar_grid_gradient g, g2;
+      auto fill = [&](colvar_grid_gradient &gg, bool with_data) {
+        gg.setup(sp.nx, 0.0, sp.mult);
+        for (int i = 0; i < sp.nd; i++) {
+          gg.lower_boundaries.push_back(colvarvalue(sp.lower[i])); gg.upper_boundaries.push_back(colvarvalue(sp.upper[i]));
+          gg.widths.push_back(sp.width[i]); gg.periodic.push_back(sp.per[i] != 0);
+        }
+        if (with_data) for (size_t k = 0; k < gg.nt && k < sp.data.size(); k++) gg.data[k] = sp.data[k];
+        gg.samples = samples;
+      };
+      fill(g, true); fill(g2, false);
+      std::ostringstream os; g.write_multicol(os);
+      std::istringstream is(os.str());
+      cvm::clear_error();
+      g2.read_multicol(is, false);
+      bool bad = (!is) || (cvm::get_error() != COLVARS_OK);
+      std::cout << "T " << bar(os.str()) << " @@ ";
+      if (bad) std::cout << "ERR\n"; else print_grid(g2);
+      cvm::clear_error();
+    } else if (cmd == "DEC") {
+      // DEC <p> <x> : x written with p significant digits (scientific, setprecision(p-1); default notation,
+      // setprecision(p)) and read back
+      int pdig = ni(); double x = nf();
+      std::ostringstream o1; o1.setf(std::ios::scientific, std::ios::floatfield); o1 << std::setprecision(pdig - 1) << x;
+      std::ostringstream o2; o2 << std::setprecision(pdig) << x;
+      double r1 = 0, r2 = 0;
+      { std::istringstream i1(o1.str()); i1 >> r1; } { std::istringstream i2(o2.str()); i2 >> r2; }
+      std::cout << o1.str() << " " << vs_hex(r1) << " " << o2.str() << " " << vs_hex(r2) << "\n";
     } else if (cmd == "GF") {
       // GF <mult_i> TEXT <file> : constructor from a multicolumn file
       int mult_i = ni();
